@@ -191,9 +191,36 @@ def lib_keys(inp, network, private=True):
     return keys
 
 
-def build(spec, private_in_inputs=True):
+def build_objects(spec, private_in_inputs=True):
+    """Same transaction, built from Input / Output objects handed to the Transaction constructor."""
+    from bitcoinlib.transactions import Transaction, Input, Output
+    network = spec['network']
+    ins = []
+    for k, inp in enumerate(spec['ins']):
+        keys = lib_keys(inp, network, private=private_in_inputs)
+        kw = dict(LIB_INPUT_ARGS[inp['kind']])
+        if inp['kind'] in MS_KINDS:
+            kw['sigs_required'] = inp['m']
+            kw['sort'] = inp['sort']
+        if inp.get('with_locking_script'):
+            kw['locking_script'] = prevout_of(inp)['spk']
+        ins.append(Input(inp['txid'], inp['n'], keys=keys, sequence=inp['seq'], value=inp['value'], compressed=inp['compressed'],
+                         index_n=k, network=network, **kw))
+    outs = []
+    for k, o in enumerate(spec['outs']):
+        addr = out_address(o, network)
+        if addr is not None:
+            outs.append(Output(o['value'], address=addr, network=network, output_n=k))
+        else:
+            outs.append(Output(o['value'], lock_script=bytes.fromhex(o['script']), network=network, output_n=k, strict=False))
+    return Transaction(ins, outs, locktime=spec['locktime'], version=spec['version'], network=network, witness_type='segwit')
+
+
+def build(spec, private_in_inputs=True, route='add_input'):
     """Build the unsigned transaction through the library API. Returns Transaction."""
     from bitcoinlib.transactions import Transaction
+    if route == 'objects':
+        return build_objects(spec, private_in_inputs)
     network = spec['network']
     t = Transaction(network=network, version=spec['version'], locktime=spec['locktime'], witness_type='segwit')
     for inp in spec['ins']:
